@@ -894,7 +894,8 @@ fn adv_variants(thorough: bool) -> Vec<AdvV> {
     for rb in [4usize, 8, 11, 16] {
         for simd in [true, false] {
             for par in [0usize, 1, 2, 3, 8] {
-                if !thorough && !simd && par != 0 && par != 3 {
+                // quick tier: every thread count for the default radix width, sequential + 3 threads otherwise
+                if !thorough && (rb != 8 || !simd) && par != 0 && par != 3 {
                     continue;
                 }
                 let small_pt = AdvancedRadixSortConfig {
@@ -1091,6 +1092,10 @@ fn fam_co(cx: &mut Cx) {
     for (hname, h) in [("k4", hier(64, 256, 2048, 16)), ("k64", hier(64, 4096, 1 << 20, 1)), ("k8", hier(512, 2048, 16384, 32))] {
         for thr in [2usize, 4, 16, 64] {
             si += 1;
+            // quick tier: a rotating subset of the (hierarchy, threshold) grid
+            if !cx.thorough && (si % 2 == 0) != (hname == "k4") && thr != 4 {
+                continue;
+            }
             let cfg = CacheObliviousConfig { cache_hierarchy: h.clone(), small_threshold: thr, ..d.clone() };
             let mut cases = small_cases::<u64>(cx, si, SMALL_LENS);
             cases.extend(big_cases::<u64>(si, &[100, 257, 300, 1000], &["rand", "reversed", "runs"], u64::domains()));
@@ -1586,7 +1591,10 @@ fn run_families(cx: &mut Cx, fam: Option<&str>) {
 
 fn new_cx(a: &Args, stem: &str, from: usize, list_only: bool) -> Cx {
     let mut t = Tracer::new(&a.out, stem);
-    t.max_events = a.get_u64("max-events", 120) as usize;
+    // files are validated by one JVM each; a rejected subject costs two more JVM runs over the rest of its
+    // file, so families with many configurations get smaller files (shorter chains), the others larger ones
+    let small_files = matches!(a.get("fam"), Some("adv") | Some("co") | Some("kv") | Some("rss") | Some("ksets") | Some("radix"));
+    t.max_events = a.get_u64("max-events", if small_files { 200 } else { 900 }) as usize;
     Cx {
         a: a.clone(),
         t,
